@@ -6,19 +6,20 @@ From Verif Require Import Base.Lex SnapRead.Model SnapRead.ModelRead SnapRead.Pr
 (* For every truth (ascending keys), every snapshot ts, all bounds (empty = unbounded; even lo > hi),
    every batch size (0 and 1 are replaced by the default, sizes above 2^32-1 are capped, as in newScanner), key-only or not, EVERY
    sequence of region layouts (one per getData call, split points drawn from a finite set P) and
-   EVERY sequence of lock sets met by the scan requests: the scan terminates within
-   |P| + |T| + 2 getData calls without panic and its concatenated output is exactly
+   EVERY sequence of lock sets met by the scan requests, EVERY schedule of retries (region errors and
+   response-level lock errors: RPCs that leave the cursor where it is) with at most R retries: the scan
+   terminates within |P| + |T| + 2 + R scan RPCs without panic and its concatenated output is exactly
    [(k,v) | in_range lo hi k, read_at ts k = Some v], ascending (descending for reverse) — so no
    key is repeated or skipped.  Under key-only the keys are compared (canon).
    Reverse scans from the end of the key space (hi = []) are covered for every layout sequence
    (LocateEndKey("") returns the last region since 0dbaf7e; formerly refuted, F08b). *)
 Theorem C05_scan_complete :
   forall (T : truth) (ts : N) (lo hi : key) (B : nat) (ko rv : bool)
-         (lay : nat -> layout) (lk : nat -> list key) (P : list key),
-    tsorted T -> (forall i, incl (lay i) P) ->
+         (retry : nat -> option retry_kind) (R : nat) (lay : nat -> layout) (lk : nat -> list key) (P : list key),
+    tsorted T -> (forall i, incl (lay i) P) -> bounded_retry retry 0 R ->
     (rv = true -> forall e, In e T -> fst e <> []) ->
     exists out,
-      scan (length P + length T + 2) B ko ts T lay lk lo hi rv = Done out /\
+      scan (length P + length T + 2 + R) B ko ts T retry lay lk lo hi rv = Done out /\
       map (canon ko) out = map (canon ko) (if rv then rev (expected ts lo hi T) else expected ts lo hi T).
 Proof. exact C05_scan_complete_proof. Qed.
 Print Assumptions C05_scan_complete.
@@ -35,12 +36,12 @@ Theorem C05_paths_agree :
     (forall fuel ev L0 keys res w' rs',
         batch_get fuel ev L0 w ts keys = (Some res, w', rs') ->
         forall k v, In (k, v) res <-> In k keys /\ read_at ts k T = Some v) /\
-    (tsorted T -> forall lo hi B ko lay lk P, (forall i, incl (lay i) P) ->
-        exists out, scan (length P + length T + 2) B ko ts T lay lk lo hi false = Done out /\
+    (tsorted T -> forall lo hi B ko retry R lay lk P, (forall i, incl (lay i) P) -> bounded_retry retry 0 R ->
+        exists out, scan (length P + length T + 2 + R) B ko ts T retry lay lk lo hi false = Done out /\
                     map (canon ko) out = map (canon ko) (expected ts lo hi T)) /\
     (tsorted T -> (forall e, In e T -> fst e <> []) ->
-        forall lo hi B ko lay lk P, (forall i, incl (lay i) P) ->
-        exists out, scan (length P + length T + 2) B ko ts T lay lk lo hi true = Done out /\
+        forall lo hi B ko retry R lay lk P, (forall i, incl (lay i) P) -> bounded_retry retry 0 R ->
+        exists out, scan (length P + length T + 2 + R) B ko ts T retry lay lk lo hi true = Done out /\
                     map (canon ko) out = map (canon ko) (rev (expected ts lo hi T))).
 Proof. exact C05_paths_agree_proof. Qed.
 Print Assumptions C05_paths_agree.
@@ -185,19 +186,19 @@ Proof. vm_compute. reflexivity. Qed.
 
 (* a scan over 3 layouts that change between the calls, with a lock met in the second call *)
 Example ex_scan_splits :
-  scan 12 2 false 10 w_truth (fun i => match i with O => [[99]; [102]] | 1%nat => [[100]] | _ => [] end)
+  scan 14 2 false 10 w_truth (fun i => match i with 1%nat => Some RetryRegionError | 3%nat => Some RetryRespLocked | _ => None end) (fun i => match i with O => [[99]; [102]] | 1%nat => [[100]] | _ => [] end)
        (fun i => match i with 1%nat => [[100]] | _ => [] end) [98] [103] false
   = Done [([98], [118]); ([99], [118]); ([100], [118]); ([101], [118]); ([102], [118])].
 Proof. vm_compute. reflexivity. Qed.
 
 (* the former F08b witness, now a regression example: all of a..h in descending order *)
 Example ex_reverse_unbounded_three_regions :
-  scan 12 256 false 10 w_truth (fun _ => w_layout) (fun _ => []) [] [] true
+  scan 12 256 false 10 w_truth (fun _ => None) (fun _ => w_layout) (fun _ => []) [] [] true
   = Done [([104], [118]); ([103], [118]); ([102], [118]); ([101], [118]); ([100], [118]); ([99], [118]); ([98], [118]); ([97], [118])].
 Proof. vm_compute. reflexivity. Qed.
 
 Example ex_reverse_bounded :
-  scan 12 3 false 10 w_truth (fun _ => w_layout) (fun _ => []) [99] [104] true
+  scan 12 3 false 10 w_truth (fun _ => None) (fun _ => w_layout) (fun _ => []) [99] [104] true
   = Done [([103], [118]); ([102], [118]); ([101], [118]); ([100], [118]); ([99], [118])].
 Proof. vm_compute. reflexivity. Qed.
 
